@@ -14,6 +14,7 @@ VERIF = os.path.dirname(os.path.dirname(os.path.abspath(__file__)))
 
 def main():
     wt, name, needs = sys.argv[1], sys.argv[2], sys.argv[3]
+    rnd = sys.argv[4] if len(sys.argv) > 4 else '2'
     d = os.path.join(VERIF, 'seeded', name)
     os.makedirs(d, exist_ok=True)
     diff = subprocess.run(['git', '-C', wt, 'diff', '--', 'wntr'], capture_output=True, text=True).stdout
@@ -33,7 +34,7 @@ def main():
     if os.path.exists(notes):
         open(os.path.join(d, 'notes.md'), 'w').write(open(notes).read().replace(wt.rstrip('/'), '<worktree>'))
     meta = {'property': name.split('-')[0], 'needs_to_manifest': needs,
-            'origin': 'fresh sub-agent given only the property text and a scratch worktree (round 2)'}
+            'origin': 'fresh sub-agent given only the property text and a scratch worktree (round %s)' % rnd}
     json.dump(meta, open(os.path.join(d, 'meta.json'), 'w'), indent=1, sort_keys=True)
     print('stored', d, 'diff lines', len(diff.splitlines()))
 
